@@ -3,35 +3,14 @@
   (Generated/ExprsSexGlue.lean) are re-read from cnvlib/cnary.py (`guess_xx`) and cnvlib/commands.py (`do_sex`) on every
   run (harness/extractors/exprs_sex_glue.py); these theorems state that the hand-written `guessXX`, `sexRow`, `strsign`
   of Model/SexExt5.lean ARE those definitions, for every table, every `compare_to_auto` and all options.
+  One module per function (C15SrcGlue: guess_xx; C15SrcGlueRow: the row; C15SrcGlueSign: strsign), so that an edit breaks
+  exactly the obligation of the function edited.
 -/
-import CnvVerif.Model.SexExt5
+import CnvVerif.Model.SexExt5Py
 import CnvVerif.Generated.ExprsSexGlue
 set_option linter.unusedSimpArgs false
 namespace CnvVerif.C15x
 open CnvVerif
-
-/-- what Python sees of the model's result: `(None, {})` for `none` (the empty dict is `none`), else the pair -/
-def c15PyPair (r : Option (Bool × SexStats)) : Option Bool × Option SexStats :=
-  match r with
-  | none => (none, none)
-  | some (b, st) => (some b, some st)
-
-/-- `stats[key]` for the five keys of the statistics dict (`none` = NaN; an unknown key also reads as `none`) -/
-def c15StatsGet (st : SexStats) (k : String) : Option Rat :=
-  if k = "chrx_ratio" then st.chrxRatio
-  else if k = "chry_ratio" then st.chryRatio
-  else if k = "combined_score" then st.combined
-  else if k = "chrx_male_lr" then st.chrxLr
-  else if k = "chry_male_lr" then st.chryLr
-  else none
-
-/-- the only literal a ratio column may show is "NA" (anything else is not a `Cell`) -/
-def c15CellLit (s : String) : Option Cell := if s = "NA" then some .na else none
-
-/-- `strsign` puts the "+" exactly where the source's test says (and never in front of NaN) -/
-theorem strsign_is_the_source (v : Option Rat) :
-    strsign v = .num (match v with | some q => Generated.src_strsign_plus q | none => false) v := by
-  cases v <;> simp [strsign, Generated.src_strsign_plus]
 
 /-- `guess_xx` IS the source: it calls `compare_sex_chromosomes` with the reference flag and the PAR genome it was
     given and `skip_low` at its default, returns None without a decision and the negated decision otherwise -/
@@ -42,37 +21,5 @@ theorem guess_xx_is_the_source (cta : Cta) (hapX : Bool) (par : Option String) (
   cases h : compareSex cta hapX par false t with
   | none => simp [c15PyPair, h]
   | some r => obtain ⟨b, st⟩ := r; simp [c15PyPair, h]
-
-/-- the row of `do_sex` IS the source: same call, "Male" on a true decision and "Female" otherwise (also without a
-    decision), `strsign` of `chrx_ratio` / `chry_ratio` when there are statistics and "NA" when the dict is empty -/
-theorem sex_row_is_the_source (cta : Cta) (hapX : Bool) (par : Option String) (t : List CBin) :
-    (let row := sexRow cta hapX par t; (row.1, some row.2.1, some row.2.2)) =
-      Generated.src_sex_row (fun h p s => c15PyPair (compareSex cta h p s t)) c15StatsGet
-        (fun v => some (strsign v)) c15CellLit hapX par := by
-  unfold sexRow Generated.src_sex_row
-  cases h : compareSex cta hapX par false t with
-  | none => simp [c15PyPair, c15CellLit, h]
-  | some r =>
-    obtain ⟨b, st⟩ := r
-    cases b <;> simp [c15PyPair, c15StatsGet, h]
-
-/-- consequence, read off the generated text alone: whatever `compare_sex_chromosomes` does, the report says "Male"
-    iff `guess_xx` (same arguments) returns False -/
-theorem src_row_male_iff_src_guess_not_xx {σ κ : Type}
-    (csc : Bool → Option String → Bool → Option Bool × Option σ) (get : σ → String → Option Rat)
-    (ss : Option Rat → κ) (lit : String → κ) (hapX : Bool) (par : Option String) :
-    (Generated.src_sex_row csc get ss lit hapX par).1 = "Male" ↔
-      Generated.src_guess_xx csc hapX par = some false := by
-  unfold Generated.src_sex_row Generated.src_guess_xx
-  cases h : (csc hapX par false).1 with
-  | none => simp [h]
-  | some b => cases b <;> simp [h]
-
-/-- non-vacuity: the generated row on a concrete result with / without statistics -/
-example : Generated.src_sex_row (σ := SexStats) (fun _ _ _ => (some true, some ⟨some 1, none, none, none, none⟩))
-    c15StatsGet (fun v => some (strsign v)) c15CellLit false none
-    = ("Male", some (.num true (some 1)), some (.num false none)) := by decide
-example : Generated.src_sex_row (σ := SexStats) (fun _ _ _ => (none, none))
-    c15StatsGet (fun v => some (strsign v)) c15CellLit true (some "grch38") = ("Female", some .na, some .na) := by decide
 
 end CnvVerif.C15x
